@@ -42,7 +42,11 @@ pub fn parse_grid_iterator<'a, 'b: 'a, R: Read>(
 ) -> Result<RowIterator<'a, 'b, R>, Error> {
     let (grid, rows_parser) = parse_grid_content(parser)?;
 
-    Ok(RowIterator { grid, rows_parser })
+    Ok(RowIterator {
+        grid,
+        rows_parser,
+        failed: false,
+    })
 }
 
 /// Parse a Zinc [Grid](crate::val::Grid) with a lazy row parser
@@ -313,13 +317,19 @@ impl<'a, 'b: 'a, R: Read> RowParser<'a, 'b, R> {
 pub struct RowIterator<'a, 'b: 'a, R: Read> {
     grid: Grid,
     rows_parser: RowParser<'a, 'b, R>,
+    /// Set once an error has been yielded, the iterator is finished after that
+    failed: bool,
 }
 
 impl<'a, 'b: 'a, R: Read> Iterator for RowIterator<'a, 'b, R> {
     type Item = Result<Dict, Error>;
 
     fn next(&mut self) -> Option<Self::Item> {
-        if !self.rows_parser.is_done() {
+        if self.failed {
+            // The position in the input is unknown after an error, there are no more rows to give
+            return None;
+        }
+        let item = if !self.rows_parser.is_done() {
             match self.rows_parser.consume_end() {
                 Ok(end) => {
                     if end || self.rows_parser.is_done() {
@@ -332,7 +342,11 @@ impl<'a, 'b: 'a, R: Read> Iterator for RowIterator<'a, 'b, R> {
             }
         } else {
             None
+        };
+        if let Some(Err(_)) = item {
+            self.failed = true;
         }
+        item
     }
 }
 
